@@ -124,7 +124,9 @@ impl<L: Debug> Debug for RefLockCollection<'_, L> {
 
 // safety: the RawLocks must be send because they come from the Send Lockable
 #[allow(clippy::non_send_fields_in_send_ty)]
-unsafe impl<L: Send> Send for RefLockCollection<'_, L> {}
+// this collection only holds `&L` (and references into it), so sending it to
+// another thread shares `L`: that needs `L: Sync`, like `&L: Send` does
+unsafe impl<L: Sync> Send for RefLockCollection<'_, L> {}
 unsafe impl<L: Sync> Sync for RefLockCollection<'_, L> {}
 
 impl<'a, L: OwnedLockable + Default> From<&'a L> for RefLockCollection<'a, L> {
